@@ -209,6 +209,12 @@ C04_FailedCheckFailsPlan(s, e) == (e.ev = "WaitRet" /\ Live(s) /\ ~BypassedScope
 
 (* ---------------- C05: attempts ---------------- *)
 C05_Bound(s, e) == (IsP(e) /\ Running(s)) => RunCalls(s, e.obj) + 1 <= Retries(s, D(s, e.obj)) + 1
+\* across a restart: what is durable of an action's attempts counts against its budget, and is kept (sequence actions;
+\* check actions are run afresh)
+C05_BudgetAcrossRestart(s, e) ==
+    /\ (IsP(e) /\ Resumed(s) /\ D(s, e.obj).k = "act") =>
+          s.cdur[e.obj].natt + RunCalls(s, e.obj) + 1 <= Retries(s, D(s, e.obj)) + 1
+    /\ (IsW(e) /\ Resumed(s) /\ D(s, e.obj).k = "act") => e.natt >= s.cdur[e.obj].natt
 FinalOut == {"ok", "perm", "wrongtype", "wrongtr"}   \* outcomes after which the plugin is never invoked again
 C05_StopOnFinal(s, e) == (IsP(e) /\ Running(s)) => s.lastOut[e.obj] \notin FinalOut
 C05_OneAttemptPerCall(s, e) == (IsW(e) /\ Running(s) /\ D(s, e.obj).k \in {"act", "cact"}) =>
@@ -265,6 +271,14 @@ C06_PreFailBlocks(s, e) ==
     \* "the scope ends Failed" for a block: whatever its bypass group said before (a failed bypass runs the block normally)
     /\ (e.ev = "WaitRet" /\ Live(s) /\ ~BypassedScope(s, 0)) =>
           \A b \in 1..NB(s) : (~BypassedScope(s, b) /\ GroupFailed(s, b, "pre")) => SnapOf(e.snap)[ScopeName(b)].st = FA
+\* an initial run of continuous checks that the crash interrupted (or that had not begun) is made by the process that
+\* resumes the plan, and passes, before any sequence action of the scope is invoked
+InitialContOwed(s, sc) ==
+    /\ HasGroup(s, sc, "cont") /\ s.cdur[Grp(sc, "cont")].st \notin {CO, FA}
+    /\ \A q \in DOMAIN s.seqRuns : InScope(D(s, q), sc) => s.cdur[q].st = NS
+C06_ContInitialAcrossRestart(s, e) == (IsP(e) /\ Resumed(s) /\ D(s, e.obj).k = "act") =>
+    /\ InitialContOwed(s, 0) => s.grpFirst[Grp(0, "cont")] = "ok"
+    /\ InitialContOwed(s, D(s, e.obj).b) => s.grpFirst[Grp(D(s, e.obj).b, "cont")] = "ok"
 C06_ContInitialFail(s, e) ==
     \* no sequence action is invoked after a failed initial run ...
     /\ (IsP(e) /\ Running(s) /\ D(s, e.obj).k = "act") =>
@@ -399,8 +413,8 @@ ClauseNames == {
     "C03_Bound", "C03_StopExact", "C03_BlockVerdict", "C03_AfterFailedBlock",
     "C04_WaitReturns", "C04_Terminal", "C04_NothingRunning", "C04_Quiescent", "C04_Stable", "C04_Consistent", "C04_Times", "C04_Reason",
     "C04_FailedCheckFailsPlan",
-    "C05_Bound", "C05_StopOnFinal", "C05_OneAttemptPerCall", "C05_Recorded", "C05_Overrun", "C05_AttemptIsItsCall", "C08_FailStop",
-    "C06_BypassSkips", "C06_BypassNotAgain", "C06_BypassFailRuns", "C06_PreFailBlocks", "C06_ContInitialFail",
+    "C05_Bound", "C05_StopOnFinal", "C05_OneAttemptPerCall", "C05_Recorded", "C05_Overrun", "C05_AttemptIsItsCall", "C05_BudgetAcrossRestart", "C08_FailStop",
+    "C06_BypassSkips", "C06_BypassNotAgain", "C06_BypassFailRuns", "C06_PreFailBlocks", "C06_ContInitialFail", "C06_ContInitialAcrossRestart",
     "C07_ContKeepsRunning", "C07_ContFailureFails", "C07_DeferredOnce", "C07_DeferredFails", "C07_DeferredNotAgain", "C07_DeferredAfterAll",
     "C08_RunningBeforeInvoke", "C08_ScopeRunningBeforeInvoke", "C08_AttemptBeforeNext", "C08_TerminalBeforeRelease", "C08_Monotone",
     "C09_NoRedoAction", "C09_NoRedoFinished", "C09_OnlyInFlight",
@@ -423,9 +437,9 @@ Holds(c, s, e) ==
       [] c = "C04_Reason" -> C04_Reason(s, e) [] c = "C04_FailedCheckFailsPlan" -> C04_FailedCheckFailsPlan(s, e)
       [] c = "C05_Bound" -> C05_Bound(s, e) [] c = "C05_StopOnFinal" -> C05_StopOnFinal(s, e)
       [] c = "C05_OneAttemptPerCall" -> C05_OneAttemptPerCall(s, e) [] c = "C05_Recorded" -> C05_Recorded(s, e)
-      [] c = "C05_Overrun" -> C05_Overrun(s, e) [] c = "C05_AttemptIsItsCall" -> C05_AttemptIsItsCall(s, e) [] c = "C08_FailStop" -> C08_FailStop(s, e)
+      [] c = "C05_Overrun" -> C05_Overrun(s, e) [] c = "C05_AttemptIsItsCall" -> C05_AttemptIsItsCall(s, e) [] c = "C05_BudgetAcrossRestart" -> C05_BudgetAcrossRestart(s, e) [] c = "C08_FailStop" -> C08_FailStop(s, e)
       [] c = "C06_BypassSkips" -> C06_BypassSkips(s, e) [] c = "C06_BypassFailRuns" -> C06_BypassFailRuns(s, e)
-      [] c = "C06_BypassNotAgain" -> C06_BypassNotAgain(s, e)
+      [] c = "C06_BypassNotAgain" -> C06_BypassNotAgain(s, e) [] c = "C06_ContInitialAcrossRestart" -> C06_ContInitialAcrossRestart(s, e)
       [] c = "C06_PreFailBlocks" -> C06_PreFailBlocks(s, e) [] c = "C06_ContInitialFail" -> C06_ContInitialFail(s, e)
       [] c = "C07_ContKeepsRunning" -> C07_ContKeepsRunning(s, e) [] c = "C07_ContFailureFails" -> C07_ContFailureFails(s, e)
       [] c = "C07_DeferredOnce" -> C07_DeferredOnce(s, e) [] c = "C07_DeferredFails" -> C07_DeferredFails(s, e)
@@ -454,10 +468,10 @@ Violated(s, e) == {c \in ClauseNames : ~Holds(c, s, e)}
 (* it agrees with Violated at every step, so the table cannot silently switch a clause off.                      *)
 ClausesFor(t) ==
   CASE t = "PStart" -> {"C01_BlockOrder", "C01_ActionOrder", "C01_PreGate", "C01_PostAfterSeqs", "C01_DeferredLast", "C02_Bound", "C02_OneBlock",
-                        "C03_AfterFailedBlock", "C04_Quiescent", "C05_Bound", "C05_StopOnFinal", "C06_BypassSkips", "C06_BypassNotAgain", "C06_PreFailBlocks",
+                        "C03_AfterFailedBlock", "C04_Quiescent", "C05_Bound", "C05_StopOnFinal", "C05_BudgetAcrossRestart", "C06_BypassSkips", "C06_BypassNotAgain", "C06_PreFailBlocks", "C06_ContInitialAcrossRestart",
                         "C06_ContInitialFail", "C08_RunningBeforeInvoke", "C08_ScopeRunningBeforeInvoke", "C08_AttemptBeforeNext", "C09_NoRedoAction", "C09_NoRedoFinished",
                         "C09_OnlyInFlight", "C10_Quiescent", "C11_Untouched", "C11_AgedOut", "C12_AtMostOnce", "C07_DeferredNotAgain", "C07_DeferredAfterAll", "C08_FailStop"}
-    [] t = "W" -> {"C07_DeferredFails", "C03_Bound", "C03_StopExact", "C03_BlockVerdict", "C04_Quiescent", "C05_OneAttemptPerCall", "C05_AttemptIsItsCall", "C06_ContInitialFail",
+    [] t = "W" -> {"C07_DeferredFails", "C03_Bound", "C03_StopExact", "C03_BlockVerdict", "C04_Quiescent", "C05_OneAttemptPerCall", "C05_AttemptIsItsCall", "C05_BudgetAcrossRestart", "C06_ContInitialFail",
                    "C07_ContFailureFails", "C08_TerminalBeforeRelease", "C08_FailStop", "C10_Quiescent", "C11_Untouched", "C12_AtMostOnce"}
     [] t = "PEnd" -> {"C04_Quiescent", "C05_Overrun"}
     [] t = "WaitRet" -> {"C03_AfterFailedBlock", "C04_Terminal", "C04_NothingRunning", "C04_Quiescent", "C04_Consistent", "C04_Times", "C04_Reason",
